@@ -222,6 +222,7 @@ func selfSigned() tls.Certificate {
 type rtpShape struct {
 	cc, extw, payload, pad int
 	ext                    bool
+	legacyPad              bool // the padding is given through pion's older Packet.PaddingSize field (Header.PaddingSize = 0)
 }
 
 func (s rtpShape) size() int {
@@ -244,13 +245,15 @@ func shapeFor(r *hx.Rand, total int) (rtpShape, bool) {
 		case 3:
 			s.cc = r.Intn(4)
 			s.ext, s.extw = r.Bool(), r.Intn(3)
-			s.pad = r.Range(1, 8)
+			s.pad = hx.Pick(r, r.Range(1, 8), r.Range(1, 8), 40, 200, 255)
+			s.legacyPad = r.Bool()
 		}
 		rest := total - (rtpShape{cc: s.cc, ext: s.ext, extw: s.extw, pad: s.pad}).size()
 		if rest >= 0 {
 			s.payload = rest
 			return s, true
 		}
+		s.legacyPad = false
 	}
 	if total >= 12 {
 		return rtpShape{payload: total - 12}, true
@@ -272,7 +275,11 @@ func buildRTP(s rtpShape, id int) *rtp.Packet {
 	}
 	if s.pad > 0 {
 		p.Header.Padding = true
-		p.Header.PaddingSize = byte(s.pad)
+		if s.legacyPad {
+			p.PaddingSize = byte(s.pad) //nolint:staticcheck // the field pion still honours when Header.PaddingSize is 0
+		} else {
+			p.Header.PaddingSize = byte(s.pad)
+		}
 	}
 	p.Payload = make([]byte, s.payload)
 	for i := range p.Payload {
